@@ -67,12 +67,10 @@ def run_real(case):
         core.write_text(d + "/in.gaf", "".join(l + "\n" for l in case["gaf"]))
         core.write_text(d + "/reads.fa", case["fasta"])
         drv = os.path.join(os.path.dirname(os.path.dirname(os.path.abspath(__file__))), "real_fault_driver.py")
-        try:
-            p = subprocess.run([sys.executable, drv, core.REPO, d, case["fault"][0], str(case["cores"]), str(case["batch"]),
-                                str(case["fault"][2])], timeout=120, stdout=subprocess.DEVNULL, stderr=subprocess.DEVNULL)
-        except subprocess.TimeoutExpired:
-            # a four-record job takes well under a second: two minutes without an exit status is a hang
-            raise core.Violation("real processes: a worker died (%s) and realign did not terminate within 120 s" % case["fault"][0])
+        p = rc.run_group([sys.executable, drv, core.REPO, d, case["fault"][0], str(case["cores"]), str(case["batch"]),
+                          str(case["fault"][2])], 120)
+        # a four-record job takes well under a second: two minutes without an exit status is a hang
+        core.check(p is not None, "real processes: a worker died (%s) and realign did not terminate within 120 s", case["fault"][0])
         fired = os.path.exists(d + "/fault.fired")
         if not fired:
             return core.Result(False, ["real:fault_not_fired"])
